@@ -894,9 +894,7 @@ func (c *refCtx) index(s *Expr, v any, k emitFn) *refErr {
 	arr, ok := v.([]any)
 	if !ok {
 		if c.strict {
-			if c.ignoreSE {
-				c.decline("array subscript on a non-array below .** in strict mode")
-			}
+			// (also below .**: only member accessors skip the nodes they do not apply to)
 			return soft("array accessor can only be applied to an array")
 		}
 		arr = []any{v}
